@@ -129,7 +129,7 @@ func (c12Engine) Gen(r *core.Rand, tier string, i int) any {
 		case "pipe-in", "pipe-in-var":
 			a.Target = "cr"
 		case "system":
-			a.Target = "cs"
+			a.Target = core.Pick(r, []string{"cs", "cs", "cs", "blank"})
 		}
 		a.Via = core.Pick(r, []string{"lit", "lit", "concat", "sprintf", "substr", "array", "var", "environ"})
 		if !inputUsed && r.Chance(1, 10) && a.Target != "" && len(a.Target) > 2 && a.Target != "missing" {
@@ -143,7 +143,7 @@ func (c12Engine) Gen(r *core.Rand, tier string, i int) any {
 		sc.Attempts = append(sc.Attempts, a)
 	}
 	if r.Chance(1, 2) {
-		ops := []string{"in1", "in2", "-", "", "v=1", "missing"}
+		ops := []string{"in1", "in2", "-", "", "v=1", "missing", "adir"}
 		for m := r.Range(1, 3); m > 0; m-- {
 			sc.Args = append(sc.Args, core.Pick(r, ops))
 		}
@@ -377,6 +377,11 @@ func (e c12Engine) Run(scAny any, keep bool) (out core.Outcome) {
 		}
 	}
 	_ = os.MkdirAll(filepath.Join(fs.Dir, "w", "sub"), 0755)
+	if sc.CustomOpen {
+		_ = os.MkdirAll(fs.Path("adir"), 0755)
+	} else {
+		_ = os.MkdirAll(realName("adir"), 0755)
+	}
 	put("in1", "i1a\ni1b\n")
 	put("in2", "i2a\n")
 	put("out2", "old\n")
@@ -388,6 +393,8 @@ func (e c12Engine) Run(scAny any, keep bool) (out core.Outcome) {
 			return "cr;emit:fromchild\n;exit:0"
 		case "cs":
 			return "cs;exit:3"
+		case "blank":
+			return "" // a command string that is empty at run time: still an attempt to start a process
 		}
 		if c12IsSpecial(t) || c12IsDevFd(t) {
 			return t
@@ -397,7 +404,7 @@ func (e c12Engine) Run(scAny any, keep bool) (out core.Outcome) {
 	var args []string
 	for _, a := range sc.Args {
 		switch a {
-		case "in1", "in2", "missing":
+		case "in1", "in2", "missing", "adir":
 			args = append(args, realName(a))
 		default:
 			args = append(args, a)
@@ -588,7 +595,7 @@ func (e c12Engine) Run(scAny any, keep bool) (out core.Outcome) {
 		}
 		if reached {
 			for _, a := range sc.Args {
-				if a == "in1" || a == "in2" || a == "missing" {
+				if a == "in1" || a == "in2" || a == "missing" || a == "adir" {
 					// operands are processed left to right; every earlier operand is readable (stdin, assignment, empty)
 					return fail("nofilereads-operand-accepted", fmt.Sprintf("NoFileReads is set, operand %q was reached, but the run returned no error", a))
 				}
@@ -608,6 +615,9 @@ func (e c12Engine) Run(scAny any, keep bool) (out core.Outcome) {
 		}
 		switch a.Kind {
 		case "system", "pipe-in", "pipe-in-var", "pipe-out":
+			if a.Target == "blank" {
+				continue // nothing observable is required of an empty command when it is permitted
+			}
 			found := false
 			want := strings.ReplaceAll(nameOf(a.Target), "\n", "\\n")
 			for _, s := range started {
@@ -618,6 +628,9 @@ func (e c12Engine) Run(scAny any, keep bool) (out core.Outcome) {
 			}
 			touched = true
 			out.Probe("permitted_exec_observed", 1)
+			if a.Kind == "system" && a.Target == "blank" {
+				continue
+			}
 			if a.Kind == "system" && r != 3 {
 				return fail("permitted-exec-did-not-happen", fmt.Sprintf("system() of a child exiting with 3 returned %v", r))
 			}
